@@ -72,6 +72,9 @@ impl Runner<'_> {
             mc_core::report::machinery_failure(&format!("C06(ii): generator for {ty} produced no value"));
         }
         self.types.push(format!("{ty} ({n})"));
+        if std::env::var("MC_TIMING").is_ok() {
+            eprintln!("{ty}: {n} values, t={:.1}s", self.ctx.elapsed());
+        }
     }
 }
 
@@ -144,10 +147,9 @@ pub fn short_hex(b: &[u8]) -> String {
 macro_rules! rt {
     ($r:expr, $name:expr, $ty:ty, $mode:ident, $vals:expr) => {{
         use rayon::prelude::*;
-        let vals: Vec<(String, $ty)> = $vals;
-        let results: Vec<$crate::gen_ledger::CaseResult> = vals
+        let results: Vec<$crate::gen_ledger::CaseResult> = ($vals)
             .into_par_iter()
-            .map(|(label, v)| {
+            .map(|(label, v): (String, $ty)| {
                 let mut res = $crate::gen_ledger::CaseResult { label, enc_hash: [0; 32], enc_hex_short: String::new(), failure: None };
                 let out = mc_core::catch(|| -> Result<(Vec<u8>, String), (String, String, String)> {
                     let b1 = pallas_codec::minicbor::to_vec(&v).map_err(|e| ("encode-error".to_string(), format!("encode failed: {e}"), String::new()))?;
